@@ -409,9 +409,7 @@ ReGet(w) ==
     /\ LET l == LatestK(Op(w).key)  r == wloc[w].rev IN
        IF IsLive(l)
        THEN Return(w, IF l.rev > r THEN l.rev ELSE r, l.rev, l.val)
-       ELSE IF Op(w).type = "delete"
-            THEN Return(w, r, wloc[w].mod, wloc[w].oldval)   \* the value read before the attempt
-            ELSE Return(w, r, 0, "-")
+       ELSE Return(w, r, 0, "-")     \* deleted meanwhile: no current key-value (update and, since the repair of D23, delete)
     /\ H(w, "ReGet", "kv.iter")
     /\ UNCHANGED <<store, floor, dealt, committed, slot, wloc, wops, seqvars, chan, cache, rvars, faults, xvars, emitted, kinit, rdvars, cvars>>
 
@@ -846,6 +844,14 @@ FailedLeavesKey ==
 
 \* a condition is reported failed only if the key differed at some moment in flight
 FailedOnlyIfDiffered == \A a \in acked : a.res \in {"cas", "notfound"} => a.diff
+
+\* (C16, under concurrency) the key-value in a failure answer is a stored live version of the key.
+\* (etcd reads the failure branch atomically with the compare, so its answer never carries the expected revision;
+\*  kubebrain reads again after the refused commit, so it can: update(exp 4) refused while the key is absent, the key
+\*  created at 4, then the re-read -- TLC finds this at once. What the trace specification demands instead is that the
+\*  answer is not OLDER than the version that refused the commit: monitor FailedReturnsCurrent.)
+FailedKvStored == \A a \in acked : (a.res = "cas" /\ a.kvrev > 0) =>
+                      \E v \in hver[a.key] : v.rev = a.kvrev /\ v.val = a.kvval /\ v.val # TOMB
 
 \* ---- C02
 RealTimeOrder == \A w \in Writers : (wloc[w].rev > 0 /\ wpc[w] # "idle") => wloc[w].rev > wloc[w].floorRev
